@@ -25,6 +25,7 @@ type Case struct {
 	Redef    *Redef   `json:"redef,omitempty"`
 	Meth     []int    `json:"meth"`            // classes the probe generics are specialised on
 	MethTop  bool     `json:"methtop"`         // plus a method on t
+	Meth2    [][2]int `json:"meth2,omitempty"` // class pairs the two-argument probe generic is specialised on
 	Perms    []string `json:"perms,omitempty"` // definition orders ("30142"); empty = every permutation
 	MaxArgs  int      `json:"maxargs"`         // cap on initargs enumerated per class (subsets = 2^MaxArgs)
 	// Cond: the classes are condition classes (define-condition / make-condition);
@@ -101,6 +102,9 @@ type genOpts struct {
 	twoArgs   bool // a slot with two initargs, so that both can be supplied (listed finding)
 	redef     bool
 	redefMid  bool
+	types     bool // one slot name carries a :type
+	defaults  bool // :default-initargs (inherited ones have a listed finding)
+	shared    bool // a class-allocated slot (inheriting it has a listed finding)
 }
 
 func genSlots(r *rand.Rand, class, gen int, nslots int, second map[int]bool) []Slot {
@@ -257,6 +261,7 @@ func genDAG(r *rand.Rand, o genOpts) Case {
 			c.Redef.Skew = r.IntN(n)
 		}
 	}
+	decorate(r, &c, o, nslots)
 	for k := range c.Classes {
 		if c.Classes[k].Supers == nil {
 			c.Classes[k].Supers = []int{}
@@ -266,6 +271,91 @@ func genDAG(r *rand.Rand, o genOpts) Case {
 		}
 	}
 	return c
+}
+
+// decorate adds :type, :default-initargs, the class-allocated slot k0 and the
+// two-argument probe generic to a drawn case.
+func decorate(r *rand.Rand, c *Case, o genOpts, nslots int) {
+	n := len(c.Classes)
+	defs := make([]*Class, 0, n+1) // every defclass form of the case
+	gens := make([]int, 0, n+1)
+	ids := make([]int, 0, n+1)
+	for k := range c.Classes {
+		defs, gens, ids = append(defs, &c.Classes[k]), append(gens, 0), append(ids, k)
+	}
+	if c.Redef != nil {
+		defs, gens, ids = append(defs, &c.Redef.Def), append(gens, 1), append(ids, c.Redef.Class)
+	}
+	if o.types {
+		// one slot name is typed, the same way in every definition; its
+		// initforms are integers so that every legal initialisation passes
+		t := r.IntN(nslots)
+		typ := []string{"fixnum", "integer", "number"}[r.IntN(3)]
+		for q, d := range defs {
+			for k := range d.Slots {
+				sd := &d.Slots[k]
+				if sd.Name != "s"+strconv.Itoa(t) {
+					continue
+				}
+				sd.Type = typ
+				if sd.Form != "" {
+					v := 100*(ids[q]+1) + 10*t + 5*gens[q]
+					sd.Form, sd.Val = strconv.Itoa(v), strconv.Itoa(v)
+				}
+			}
+		}
+	}
+	if o.defaults {
+		for q, d := range defs {
+			if r.IntN(100) < 45 {
+				continue
+			}
+			var cand []string
+			for _, sd := range d.Slots {
+				if !sd.Shared && 0 < len(sd.Initargs) {
+					cand = append(cand, sd.Initargs[0])
+				}
+			}
+			if len(cand) == 0 {
+				continue
+			}
+			v := 8000 + 100*gens[q] + 10*ids[q] + len(d.Defaults)
+			df := Default{Arg: cand[r.IntN(len(cand))], Form: strconv.Itoa(v), Val: strconv.Itoa(v)}
+			if r.IntN(4) == 0 {
+				df.Form = fmt.Sprintf("(+ %d 1)", v-1)
+			}
+			d.Defaults = append(d.Defaults, df)
+		}
+	}
+	if o.shared {
+		a := r.IntN(n)
+		sd := Slot{Name: "k0", Shared: true}
+		if r.IntN(100) < 60 {
+			sd.Form, sd.Val = strconv.Itoa(50+a), strconv.Itoa(50+a)
+		}
+		c.Classes[a].Slots = append(c.Classes[a].Slots, sd)
+		b := r.IntN(n)
+		if b != a && r.IntN(100) < 45 {
+			sd2 := Slot{Name: "k0", Shared: true}
+			if r.IntN(100) < 50 {
+				sd2.Form, sd2.Val = strconv.Itoa(50+b), strconv.Itoa(50+b)
+			}
+			c.Classes[b].Slots = append(c.Classes[b].Slots, sd2)
+		}
+		if c.Redef != nil && (c.Redef.Class == a) && r.IntN(2) == 0 {
+			c.Redef.Def.Slots = append(c.Redef.Def.Slots, sd)
+		}
+	}
+	// two-argument probe generic
+	np := 2 + r.IntN(4)
+	seen := map[[2]int]bool{}
+	for k := 0; k < np; k++ {
+		pr := [2]int{r.IntN(n), r.IntN(n)}
+		if !seen[pr] {
+			seen[pr] = true
+			c.Meth2 = append(c.Meth2, pr)
+		}
+	}
 }
 
 // fixed holds the deterministic, seed-independent block at the start of the
@@ -286,12 +376,12 @@ func fixed() []Case {
 		{Supers: []int{2}, Slots: []Slot{acc(sl("s0", "", "i0"), false, true, false), acc(sl("s1", "211", "i1"), false, false, true)}},
 		{Supers: []int{}, Slots: []Slot{sl("s0", "300"), sl("s1", "311"), acc(sl("s2", "322", "i2"), true, true, true)}},
 	}
-	out = append(out, Case{Note: "chain3", Classes: chain, Universe: u, Meth: []int{1, 2}, MaxArgs: 5})
+	out = append(out, Case{Note: "chain3", Classes: chain, Universe: u, Meth: []int{1, 2}, Meth2: [][2]int{{2, 2}, {1, 2}, {2, 0}, {1, 1}}, MaxArgs: 5})
 	out = append(out, Case{Note: "chain3 redefine root", Classes: chain, Universe: u, Meth: []int{0, 2}, MaxArgs: 5,
 		Redef: &Redef{Class: 2, Skew: -1, Def: Class{Supers: []int{}, Slots: []Slot{sl("s0", "305"), acc(sl("s2", "327", "i2"), true, false, true)}}}})
 	out = append(out, Case{Note: "chain3 redefine middle", Classes: chain, Universe: u, Meth: []int{0, 2}, MethTop: true, MaxArgs: 5,
 		Redef: &Redef{Class: 1, Skew: -1, Def: Class{Supers: []int{2}, Slots: []Slot{sl("s1", "216", "i1"), sl("s2", "226")}}}})
-	out = append(out, Case{Note: "chain3 redefine middle, cut from root", Classes: chain, Universe: u, Meth: []int{2}, MaxArgs: 5,
+	out = append(out, Case{Note: "chain3 redefine middle, cut from root", Classes: chain, Universe: u, Meth: []int{2}, Meth2: [][2]int{{2, 2}, {1, 2}, {2, 1}}, MaxArgs: 5,
 		Redef: &Redef{Class: 1, Skew: -1, Def: Class{Supers: []int{}, Slots: []Slot{acc(sl("s1", "216", "i1"), true, false, false)}}}})
 	out = append(out, Case{Note: "chain3 redefine root early", Classes: chain, Universe: u, Meth: []int{0, 2}, MaxArgs: 5,
 		Redef: &Redef{Class: 2, Skew: 0, Def: Class{Supers: []int{}, Slots: []Slot{sl("s0", "305"), sl("s2", "327", "i2")}}}})
@@ -303,8 +393,8 @@ func fixed() []Case {
 		{Supers: []int{}, Slots: []Slot{sl("s0", "400"), acc(sl("s2", "", "i2"), false, false, true)}},
 		{Supers: []int{}, Slots: []Slot{sl("s2", "522")}},
 	}
-	out = append(out, Case{Note: "diamond5", Classes: diamond, Universe: u, Meth: []int{2, 3, 4}, MaxArgs: 5})
-	out = append(out, Case{Note: "diamond5 redefine arm", Classes: diamond, Universe: u, Meth: []int{1, 3, 4}, MaxArgs: 5,
+	out = append(out, Case{Note: "diamond5", Classes: diamond, Universe: u, Meth: []int{2, 3, 4}, Meth2: [][2]int{{3, 3}, {1, 4}, {2, 3}, {4, 1}, {3, 0}}, MaxArgs: 5})
+	out = append(out, Case{Note: "diamond5 redefine arm", Classes: diamond, Universe: u, Meth: []int{1, 3, 4}, Meth2: [][2]int{{3, 3}, {2, 4}, {4, 2}, {1, 2}}, MaxArgs: 5,
 		Redef: &Redef{Class: 2, Skew: -1, Def: Class{Supers: []int{3, 4}, Slots: []Slot{sl("s1", "316", "i1")}}}})
 	out = append(out, Case{Note: "diamond5 redefine apex of diamond", Classes: diamond, Universe: u, Meth: []int{0, 3, 4}, MethTop: true, MaxArgs: 5,
 		Redef: &Redef{Class: 3, Skew: -1, Def: Class{Supers: []int{4}, Slots: []Slot{sl("s0", "405", "i0"), sl("s1", "415")}}}})
@@ -345,6 +435,30 @@ func fixed() []Case {
 			{Supers: []int{3}, Slots: []Slot{sl("s1", "")}},
 			{Supers: []int{}, Slots: []Slot{sl("s2", "322", "i2")}},
 		}})
+	// :default-initargs: own, overriding an inherited one, and inherited (listed finding)
+	out = append(out, Case{Note: "default-initargs", Universe: u, Meth: []int{1}, Meth2: [][2]int{{1, 1}, {0, 1}, {1, 0}}, MaxArgs: 5, Classes: []Class{
+		{Supers: []int{1}, Slots: []Slot{sl("s2", "122", "i2")}, Defaults: []Default{{"i2", "8002", "8002"}, {"i0", "(+ 8000 3)", "8003"}}},
+		{Supers: []int{}, Slots: []Slot{sl("s0", "200", "i0"), sl("s1", "", "i1")}, Defaults: []Default{{"i0", "8100", "8100"}, {"i1", "8101", "8101"}}},
+	}})
+	// class-allocated slot: with and without initform, inherited, owned twice (listed findings)
+	shared := func(form string) Slot { return Slot{Name: "k0", Shared: true, Form: form, Val: form} }
+	out = append(out, Case{Note: "class-allocated slot", Universe: u, Meth: []int{1}, Meth2: [][2]int{{1, 3}, {0, 2}}, MaxArgs: 5, Classes: []Class{
+		{Supers: []int{1}, Slots: []Slot{sl("s0", "100", "i0")}},
+		{Supers: []int{}, Slots: []Slot{sl("s1", "211"), shared("51")}},
+		{Supers: []int{}, Slots: []Slot{shared(""), sl("s0", "300")}},
+		{Supers: []int{2}, Slots: []Slot{sl("s1", "411")}},
+	}})
+	// :type on a slot defined at two levels
+	typed := func(s Slot, t string) Slot { s.Type = t; return s }
+	out = append(out, Case{Note: "typed slot", Universe: u, Meth: []int{0}, Meth2: [][2]int{{1, 1}}, MaxArgs: 5, Classes: []Class{
+		{Supers: []int{1}, Slots: []Slot{typed(sl("s0", "100", "i0"), "fixnum")}},
+		{Supers: []int{}, Slots: []Slot{typed(sl("s0", "", "j0"), "fixnum"), sl("s1", "211", "i1")}},
+	}})
+	// change-class between unrelated classes: a new slot whose initform needs evaluation (listed finding)
+	out = append(out, Case{Note: "change-class to a class with an evaluated initform", Universe: u, Meth: []int{0}, Meth2: [][2]int{{0, 1}, {1, 0}}, MaxArgs: 5, Classes: []Class{
+		{Supers: []int{}, Slots: []Slot{sl("s0", "100", "i0")}},
+		{Supers: []int{}, Slots: []Slot{{Name: "s1", Form: "(+ 210 1)", Val: "211"}, sl("s0", "200")}},
+	}})
 	// listed findings
 	out = append(out, Case{Note: "initarg shared by two slots", Universe: u, Meth: []int{0}, MaxArgs: 5, Classes: []Class{
 		{Supers: []int{1}, Slots: []Slot{sl("s0", "100", "i0"), sl("s1", "111", "i0", "i1")}},
@@ -389,6 +503,13 @@ func gen(r *rand.Rand, i int, tier string) Case {
 		o.nilForm = true
 	case 2, 3:
 		o.twoArgs = true
+	}
+	o.types = r.IntN(100) < 25
+	switch r.IntN(20) {
+	case 0, 1, 2:
+		o.defaults = true
+	case 3, 4:
+		o.shared = true
 	}
 	c := genDAG(r, o)
 	switch r.IntN(20) {
